@@ -39,6 +39,10 @@ impl ChainService {
 
         let clean_expired_orphan_timer =
             crossbeam::channel::tick(std::time::Duration::from_secs(60));
+        #[cfg(feature = "verif-hooks")]
+        let _ = &clean_expired_orphan_timer;
+        #[cfg(feature = "verif-hooks")]
+        let clean_expired_orphan_timer = crate::verif_expire::receiver(self.orphan_broker.verif_pool_key());
 
         loop {
             select! {
